@@ -73,6 +73,18 @@ def loc(n, fn=None):
 
 
 _REN = [None]
+_NOCAST = [False]
+
+
+class nocasts:
+    """with nocasts(): show() drops explicit casts too (comparisons that are about data flow, not types)"""
+
+    def __enter__(self):
+        self.prev = _NOCAST[0]
+        _NOCAST[0] = True
+
+    def __exit__(self, *a):
+        _NOCAST[0] = self.prev
 
 
 class renaming:
@@ -103,7 +115,7 @@ def show(n, depth=0):
     if k == 'Ref' and _REN[0] and n.get('id') in _REN[0]:
         return _REN[0][n['id']]
     if k == 'Cast':
-        if n.get('impl') or n.get('ck') in NOOP_CASTS or n.get('ck') == 'BitCast':
+        if n.get('impl') or n.get('ck') in NOOP_CASTS or n.get('ck') == 'BitCast' or _NOCAST[0]:
             return show(n['e'], d)
         return '(%s)%s' % (n.get('ty', '?'), show(n['e'], d))
     if k in ('Int', 'Bool'):
@@ -189,7 +201,7 @@ def fold(n):
         if is_node(v):
             out[key] = fold(v)
         elif isinstance(v, list):
-            out[key] = [fold(x) if is_node(x) else x for x in v]
+            out[key] = [fold(x) if is_node(x) else ({k2: (fold(v2) if is_node(v2) else v2) for k2, v2 in x.items()} if isinstance(x, dict) else x) for x in v]
         else:
             out[key] = v
     return out
